@@ -407,7 +407,13 @@ func main() {
 
 	if len(engineErrs) > 0 {
 		fmt.Fprintf(os.Stderr, "ENGINE error(s) in check %s:\n%s\n", id, strings.Join(engineErrs, "\n"))
-		exit(2)
+		if len(failures) == 0 {
+			exit(2)
+		}
+		// another worker found a violation: it is confirmed in a fresh process below (exit 2 there if it does
+		// not reproduce) and then stands on its own; a changed go-zero can do both, break a property and
+		// make some other run spin until the wall-clock watchdog
+		fmt.Fprintf(os.Stderr, "a violation was found by another worker; it is reported if it reproduces in a fresh process\n")
 	}
 
 	violations := 0
